@@ -72,4 +72,143 @@ theorem short_hex_roundtrip (num : Rat → List Char) (comp : Bool) (r g b : Nat
 
 example : (255 : Nat) % 17 = 0 ∧ (0x33 : Nat) % 17 = 0 := by decide
 
+/-! ## The chosen notation decodes to the colour -/
+
+/-- the colour a decoded token denotes agrees with `c` channel by channel (rsass's own
+equality tolerance `cmp_chan`, 1e-7) -/
+def denotes (d : Rat × Rat × Rat × Rat) (c : Rgba Rat) : Prop :=
+  chanEq d.1 c.r = true ∧ chanEq d.2.1 c.g = true ∧ chanEq d.2.2.1 c.b = true ∧ chanEq d.2.2.2 c.a = true
+
+/-- FULL STATEMENT for rgba-stored colours, both styles, every source format the parser or a
+function produces: the notation `impl Display for Formatted<Rgba>` chooses — a name, `#rgb`,
+`#rrggbb`, `rgb(r, g, b)`, `transparent`, `rgb()/rgba()` with numbers — reads back (names through
+the CSS list) to the colour's rgba within the byte tolerance. -/
+theorem fmt_decode_rgba (c : Rgba Rat) (h : c.WF) (hs : c.src ≠ .shortHex) (comp : Bool) :
+    ∃ d, decodeTok (c.tok comp) = some d ∧ denotes d c := by
+  obtain ⟨⟨r0, r1⟩, ⟨g0, g1⟩, ⟨b0, b1⟩, ⟨a0, a1⟩⟩ := h
+  have refl : ∀ x : Rat, chanEq x x = true := by
+    intro x; unfold chanEq; rw [sub_self]; exact small_pos
+  unfold Rgba.tok
+  cases hb : c.tryBytes with
+  | some t =>
+    obtain ⟨r, g, b⟩ := t
+    simp only []
+    unfold Rgba.tryBytes at hb
+    split at hb
+    · rename_i ha
+      have ea : c.a = 1 := le_antisymm a1 ha
+      split at hb
+      · rename_i r' g' b' hr hg hb'
+        simp only [Option.some.injEq, Prod.mk.injEq] at hb
+        obtain ⟨rfl, rfl, rfl⟩ := hb
+        have cr := tryByte_close c.r _ r0 r1 hr
+        have cg := tryByte_close c.g _ g0 g1 hg
+        have cb := tryByte_close c.b _ b0 b1 hb'
+        refine ⟨_, bytesTok_decode comp c.src hs _ _ _ (by omega) (by omega) (by omega)
+          colorNames_match_css_v2n, ?_⟩
+        unfold denotes chanEq
+        simp only [cr.1, cg.1, cb.1, decide_true, ea, sub_self, small_pos, and_self]
+      · simp at hb
+    · simp at hb
+  | none =>
+    simp only []
+    split
+    · rename_i hz
+      simp only [Bool.and_eq_true, Rgba.allZero, beq_iff_eq] at hz
+      obtain ⟨_, ⟨⟨za, zr⟩, zg⟩, zb⟩ := hz
+      refine ⟨_, rfl, ?_⟩
+      unfold denotes
+      simp only [zr, zg, zb, za, refl, and_self]
+    · by_cases ha : 1 ≤ c.a
+      · have ea : c.a = 1 := le_antisymm a1 ha
+        refine ⟨(c.r, c.g, c.b, 1), by simp [decodeTok, ha], ?_⟩
+        unfold denotes
+        simp only [refl, ea, and_self]
+      · refine ⟨(c.r, c.g, c.b, c.a), by simp [decodeTok, ha], ?_⟩
+        unfold denotes
+        simp only [refl, and_self]
+
+/-- FULL STATEMENT for the `hsl()/hsla()` notation (hsla-stored colours with `hsla_format`, and
+hwba-stored colours through `Hsla::from`): away from the hue printed as 0 (`hue + 1e-7 > 360`),
+the three printed numbers and alpha convert (CSS hsl→rgb) to exactly the colour's rgba. -/
+theorem fmt_decode_hsl (c : Hsla Rat) (h : c.WF) (hh : ¬ (360 < c.h + (CExtra.small : Rat))) :
+    ∃ d, decodeTok c.tok = some d ∧ denotes d c.toRgba := by
+  obtain ⟨_, _, _, ⟨a0, a1⟩⟩ := h
+  have refl : ∀ x : Rat, chanEq x x = true := by
+    intro x; unfold chanEq; rw [sub_self]; exact small_pos
+  have es : c.s * 100 / 100 = c.s := by ring
+  have el : c.l * 100 / 100 = c.l := by ring
+  have key : ∀ a' : Rat, a' = c.a →
+      denotes ((Hsla.toRgba ⟨c.h, c.s, c.l, a', true⟩ : Rgba Rat).r, (Hsla.toRgba ⟨c.h, c.s, c.l, a', true⟩ : Rgba Rat).g,
+        (Hsla.toRgba ⟨c.h, c.s, c.l, a', true⟩ : Rgba Rat).b, (Hsla.toRgba ⟨c.h, c.s, c.l, a', true⟩ : Rgba Rat).a) c.toRgba := by
+    intro a' e
+    subst e
+    have : (Hsla.toRgba ⟨c.h, c.s, c.l, c.a, true⟩ : Rgba Rat) = c.toRgba := Hsla.toRgba_fmt c true
+    unfold denotes
+    simp only [this, refl, and_self]
+  by_cases ha : 1 ≤ c.a
+  · refine ⟨_, rfl, ?_⟩
+    simp only [Hsla.tok, hh, if_false, ha, if_true, es, el]
+    exact key 1 (le_antisymm a1 ha).symm
+  · refine ⟨_, rfl, ?_⟩
+    simp only [Hsla.tok, hh, if_false, ha, es, el]
+    exact key c.a rfl
+
+/-- no constructor expression yields an rgba value with the `ShortHex` source format (the
+variant is never constructed by rsass), so `fmt_decode_rgba` applies to every constructed colour -/
+theorem ctor_src_not_shortHex (e : CExpr Rat) (c : Rgba Rat) (he : e.isCtor = true)
+    (h : e.eval CQuirks.spec = some (.rgba c)) : c.src ≠ .shortHex := by
+  cases e with
+  | hex ds =>
+    simp only [CExpr.eval, Option.map_eq_some_iff] at h
+    obtain ⟨r, hr, hc⟩ := h
+    cases hc
+    unfold fromHex at hr
+    split at hr <;> simp at hr <;> subst hr <;> simp [Rgba.fromBytes, Rgba.fromBytesA]
+  | name s =>
+    simp only [CExpr.eval, Option.map_eq_some_iff] at h
+    obtain ⟨r, hr, hc⟩ := h
+    cases hc
+    unfold fromName at hr
+    simp only [] at hr
+    split at hr
+    · simp at hr; subst hr; simp [Rgba.new]
+    · split at hr
+      · simp at hr; subst hr; simp [Rgba.new]
+      · simp at hr
+  | rgb r g b a =>
+    simp only [CExpr.eval, mkRgb] at h
+    split at h
+    · cases h; simp [Rgba.new]
+    · simp at h
+  | rgbaOf c0 a =>
+    simp only [CExpr.eval] at h
+    split at h
+    · simp only [Option.some.injEq] at h
+      rename_i c1 a1 _ _
+      cases c1 <;> simp [Col.setAlpha, Col.resetSource] at h
+      subst h; simp
+    · simp at h
+  | hsl hh s l a =>
+    simp only [CExpr.eval, mkHsl] at h
+    split at h <;> simp at h
+  | hwb hh w b a =>
+    have key : ∀ (p : Bool) (x : Rgba Rat) (y : Hwba Rat),
+        (if p = true then Col.rgba x else Col.hwba y) = Col.rgba c → c = x := by
+      intro p x y e
+      cases p
+      · simp at e
+      · simp at e; exact e.symm
+    simp only [CExpr.eval, mkHwb] at h
+    split at h
+    · simp only [Option.some.injEq] at h
+      have := key _ _ _ h
+      rw [this]
+      show (Hsla.toRgba _).src ≠ .shortHex
+      rw [Hsla.toRgba_src]; simp
+    · simp at h
+  | call f c0 args => simp [CExpr.isCtor] at he
+  | mix a b w => simp [CExpr.isCtor] at he
+
+
 end C33
